@@ -76,10 +76,10 @@ CHECKS = {
     "C14": dict(
         text="Free theorem (Paramcoq parametricity translation of the model's own definitions, Closed under the global context): the core model is parametric in the component type and uses only ceqb, "
              "hence for ANY injective renaming f of path components the verdict, violation lines (C14_rule_rename_invariant) and layer verdicts / layer attributions (C14_layer_rename_invariant) "
-             "commute with f; C14_render_prefix: on dotted strings the component prefix order is exactly 'equal or starts with name + dot' (the test every name comparison in the code must use). "
-             "Tie to /repo: every case materialised under three namings on the real code - collision-free and two adversarial pools (a, ab, a_b, aa, ...) - real outcomes compared modulo the renaming "
+             "commute with f; plot labels: C14_label_rename_invariant / _unaliased (the label is the alias of the most specific aliased module + the remaining components, so it keeps the alias and renames the rest); C14_render_prefix: on dotted strings the component prefix order is exactly 'equal or starts with name + dot' (the test every name comparison in the code must use). "
+             "Tie to /repo: every case materialised under several namings on the real code - collision-free and adversarial pools (a, ab, a_b, aa, ...; names repeating the root; a.b next to a_b) - real outcomes compared modulo the renaming "
              "(module rules, layer rules, plot labels), plus model agreement.",
-        note="Regex specifications are outside the claim (renaming changes what they match): hypothesis rm_agree. Label invariance is by C17's theorems + metamorphic check. "
+        note="Regex specifications are outside the claim (renaming changes what they match): hypothesis rm_agree. "
              "Trusted: Coq kernel, the Paramcoq plugin only generates terms that the kernel re-checks, extraction, driver, harness.",
         technique="Coq free theorem via Paramcoq + string-level lemma + metamorphic double materialisation on the implementation",
         design="5/C14"),
